@@ -8,7 +8,7 @@ Lemma sl_split_item s rest cur :
   sl_split (s ++ 0 :: rest) cur = option_map (cons (rev cur ++ s)) (sl_split rest []).
 Proof.
   revert cur; induction s as [|b s IH]; intros cur H; cbn.
-  - rewrite app_nil_r. destruct (sl_split rest []); reflexivity.
+  - rewrite app_nil_r, rev_append_rev, app_nil_r. destruct (sl_split rest []); reflexivity.
   - cbn in H. apply andb_true_iff in H. destruct H as [Hb Hs].
     destruct (N.eqb b 0); [discriminate|]. rewrite IH by assumption. cbn. rewrite <- app_assoc. reflexivity.
 Qed.
